@@ -671,6 +671,7 @@ def run_session(prop: str, spec: dict, rng: random.Random, nops: int, res: Resul
     timeline = [observe(tracks)]
     cursor = 0
     frozen: dict = {}  # C10: values of disabled features
+    frozen_obj: dict = {}  # … and the attribute dict OBJECT of the node / edge each value was read from
 
     stop = []
 
@@ -996,8 +997,12 @@ def run_session(prop: str, spec: dict, rng: random.Random, nops: int, res: Resul
                     for k in op["keys"]:
                         if k == F.K_IOU:
                             frozen[k] = {e: tracks.get_edge_attr(e, case.keyname[F.K_IOU]) for e in tracks.graph.edges}
+                            for e in tracks.graph.edges:
+                                frozen_obj[(k, e)] = tracks.graph.edges[e]
                         elif k in F.RP_KEYS or k in (F.K_TID, F.K_LIN):
                             frozen[k] = {n: canon_value(tracks.graph.nodes[n].get(case.keyname[k])) for n in tracks.graph.nodes}
+                            for n in tracks.graph.nodes:
+                                frozen_obj[(k, n)] = tracks.graph.nodes[n]
                 if kind == "enable" and accepted:
                     for k in op["keys"]:
                         frozen.pop(k, None)
@@ -1026,6 +1031,16 @@ def run_session(prop: str, spec: dict, rng: random.Random, nops: int, res: Resul
                             # the node/edge was deleted and recreated by this step; an unregistered
                             # attribute is not saved by delete actions: absent, not changed
                             vals[x] = None
+                            continue
+                        cur_obj = tracks.graph.edges[x] if k == F.K_IOU else tracks.graph.nodes[x]
+                        if frozen_obj.get((k, x)) is not cur_obj:
+                            # another incarnation of the element: it was removed and re-created since the
+                            # value was noted (networkx keeps ONE attribute dict per living node / edge) —
+                            # e.g. by the undo of an entry recorded while the feature was still enabled, which
+                            # re-creates the element with the attributes saved then. Not "the same element
+                            # changed by an edit": note the new incarnation
+                            frozen_obj[(k, x)] = cur_obj
+                            vals[x] = now
                             continue
                         if now != v:
                             fail(f"{kind}|disabled-feature-changed", f"after {op}: disabled {case.keyname[k]} of {x} changed {v} -> {now}")
@@ -1917,10 +1932,26 @@ def narrow_dtype_iou_cases(prop: str, rng: random.Random, n: int, res: Result) -
             g.add_node(b, time=1)
             g.add_edge(a, b)
             exp[(a, b)] = min(wa, wb) / max(wa, wb)
+        widths = {}
+        for (a_, b_) in exp:
+            widths[(a_, b_)] = (int((seg[0] == a_).any(axis=0).sum()), int((seg[1] == b_).any(axis=0).sum()))
         try:
             t = SolutionTracks(g, segmentation=seg, ndim=3)
             t.enable_features(["iou"])
             t.disable_features(["iou"])
+            # while the feature is off: one target mask loses exactly its overlap with its source (and
+            # keeps other pixels), so the stored non-zero value is stale and the true value is 0
+            cand = [e_ for e_, (wa_, wb_) in widths.items() if wb_ > wa_]
+            if cand:
+                from funtracks.user_actions import UserUpdateSegmentation as _UUS
+                a_, b_ = rng.choice(cand)
+                cols = np.nonzero((seg[0] == a_).any(axis=0))[0]
+                yy, xx = np.meshgrid(np.arange(seg.shape[1]), cols, indexing="ij")
+                idx = (np.ones(yy.size, dtype=np.int64), yy.reshape(-1).astype(np.int64), xx.reshape(-1).astype(np.int64))
+                t.segmentation[idx] = 0
+                _UUS(t, 0, [(idx, int(b_))], 1)
+                exp[(a_, b_)] = 0.0
+                res.count("narrow-dtype-iou-cases:overlap-erased-while-off")
             t.enable_features(["iou"])
         except Exception as e:  # noqa: BLE001
             res.count(f"narrow-dtype:raised:{type(e).__name__}")
